@@ -352,12 +352,17 @@ def run(run):
         base_if = "def f(x: Int) -> Int =>\n    if x > 1 then\n        1\n{gap}    else\n        2\nprint(f(2))\nprint(f(0))\n"
         base_top = "if True then\n    print(1)\n{gap}else\n    print(2)\n"
         base_match = "def g(x: Int) -> Int =>\n    match x\n        1 => 10\n{gap}        2 => 20\n{gap}        _ => 0\nprint(g(2))\n"
+        base_match_head = "def g(x: Int) -> Int =>\n    match x\n{gap}        1 => 10\n        _ => 0\nprint(g(2))\n"
+        base_handle = ("class E(m: Str): Exception(m)\nclass F(m: Str): Exception(m)\ndef f(x: Int) -> Int raise [E, F] => x\ndef g() -> Int =>\n    f(1) handle\n"
+                       "{gap}        err: E => 0\n{gap}        err: F => 1\nprint(g())\n")
+        base_cond = "type P: Int when\n{gap}    self > 0\n{gap}    self < 10\ndef p: Int := 3\nprint(p)\n"
         gaps = {"blank-line": "\n", "two-blank-lines": "\n\n", "whitespace-only-line": "        \n"}
         cgaps = {"comment-line": "{ind}# c\n"}
 
         def f(model):
             bad_blank, bad_comment = [], []
-            for nm, base, ind in (("else-in-function", base_if, "    "), ("else-top-level", base_top, ""), ("match-case", base_match, "        ")):
+            for nm, base, ind in (("else-in-function", base_if, "    "), ("else-top-level", base_top, ""), ("match-case", base_match, "        "),
+                                  ("match-header", base_match_head, "        "), ("handle-cases", base_handle, "        "), ("conditions", base_cond, "    ")):
                 if nm not in sites:
                     continue
                 st0, out0 = rp.transpile(base.format(gap=""))
@@ -405,6 +410,12 @@ def run(run):
         if not ni:
             raise Unsupported("no path takes the newline-then-else branch")
         e2.prove_each(run, ob, exi, [], cli, {}, blank_replay("else-after-newlines", ("else-in-function", "else-top-level")))
+        if ob.status == "discharged":
+            rep_ = blank_replay("else-after-newlines", ("else-in-function", "else-top-level"))({})
+            run.validated += 1
+            if rep_.get("reproduced"):
+                ob.status = "pending"
+                ob.inconclusive("placements of blank / comment lines still change the verdict although the kernel is as specified: " + str(rep_.get("failing"))[:300])
     except Unsupported as e:
         ob.inconclusive(str(e))
 
@@ -436,7 +447,82 @@ def run(run):
             clmm.append(z3.Implies(conj(p.cond), z3.BoolVal(bool(ok))))
         if not nm_:
             raise Unsupported("no Ok path in the case loop body")
-        e2.prove_each(run, ob, exm, [], clmm, {}, blank_replay("match-case-newlines", ("match-case",)))
+        # prologue of parse_match_cases (shared by match and handle): a run of newlines before the indented cases is skipped
+        fnm = e2.find1(mir, file="src/parse/control_flow_expr.rs", name="parse_match_cases")
+        stp = State()
+        endsp = e2.run_kernel(run, exm, fnm, [Ref(exm.new_cell(stp, Opq(z3.Const("it", Val), "LexIterator")))], stp)
+        npro = 0
+        for p in endsp:
+            evs = [e_ for e_ in p.events if e_["name"].startswith("LexIterator::") and e_["name"] != "LexIterator::start_pos"]
+            if not evs:
+                continue
+            npro += 1
+            # (the lexer hands a blank line after a header over as NL Indent NL: the run continues behind the Indent)
+            tokarg = lambda e_: (exm.read_ref(p.state, e_["args"][1]) if isinstance(e_["args"][1], Ref) else e_["args"][1]) if len(e_["args"]) > 1 else None
+            shape = [(e_["name"].split("::")[-1], getattr(tokarg(e_), "variant", None)) for e_ in evs[:3]]
+            ok = shape[:2] == [("eat_while", "NL"), ("eat", "Indent")]
+            if ok and result_kind(p) != "Err" or len(evs) > 2:
+                ok = ok and shape[2:3] == [("eat_while", "NL")]
+            clmm.append(z3.Implies(conj(p.cond), z3.BoolVal(bool(ok))))
+        if not npro:
+            raise Unsupported("parse_match_cases does not touch the iterator")
+        e2.prove_each(run, ob, exm, [], clmm, {}, blank_replay("match-case-newlines", ("match-case", "match-header", "handle-cases")))
+        if ob.status == "discharged":
+            rep_ = blank_replay("match-case-newlines", ("match-case", "match-header", "handle-cases"))({})
+            run.validated += 1
+            if rep_.get("reproduced"):
+                ob.status = "pending"
+                ob.inconclusive("placements of blank / comment lines still change the verdict although the kernel is as specified: " + str(rep_.get("failing"))[:300])
+    except Unsupported as e:
+        ob.inconclusive(str(e))
+
+    ob = run.ob("conditions-skip-newline-runs", "E2", "parse_conditions (the indented condition list of `type T: U when`): a run of newlines before the indented "
+                "list and after every condition is consumed as a whole (eat_while(NL))", ["parse_conditions", "parse_conditions::{closure}"])
+    try:
+        fnc_ = e2.find1(mir, file="src/parse/ty.rs", name="parse_conditions")
+        exc = Exec(mir, max_paths=5000)
+        stc = State()
+        endsc = e2.run_kernel(run, exc, fnc_, [Ref(exc.new_cell(stc, Opq(z3.Const("it", Val), "LexIterator")))], stc)
+        clc, ncnd = [], 0
+        for p in endsc:
+            evs = [e_ for e_ in p.events if e_["name"].startswith("LexIterator::") and e_["name"] != "LexIterator::start_pos"]
+            ind = [e_ for e_ in evs if e_["name"] == "LexIterator::eat"]
+            if not ind:
+                continue                 # single condition on the same line / error before the list
+            ncnd += 1
+            first = evs[0]
+            a0 = first["args"][1] if len(first["args"]) > 1 else None
+            a0 = exc.read_ref(p.state, a0) if isinstance(a0, Ref) else a0
+            ok = first["name"] == "LexIterator::eat_while" and isinstance(a0, Agg) and a0.variant == "NL" and evs.index(ind[0]) == 1
+            if ok and len(evs) > 2:
+                a2 = evs[2]["args"][1] if len(evs[2]["args"]) > 1 else None
+                a2 = exc.read_ref(p.state, a2) if isinstance(a2, Ref) else a2
+                ok = evs[2]["name"] == "LexIterator::eat_while" and isinstance(a2, Agg) and a2.variant == "NL"
+            clc.append(z3.Implies(conj(p.cond), z3.BoolVal(bool(ok))))
+        clo = [f for n, f in mir.fns.items() if re.match(r"^(.*::)?parse_conditions::\{closure#0\}$", n)]
+        if len(clo) != 1 or not ncnd:
+            raise Unsupported(f"parse_conditions: {len(clo)} loop closures, {ncnd} list paths")
+        stc2 = State()
+        conds = Ref(exc.new_cell(stc2, Seq()))
+        envc = Ref(exc.new_cell(stc2, Agg("closure", clo[0].args[0][1].lstrip("&").replace("mut ", "").strip(), [conds, Ref(exc.new_cell(stc2, Opq(z3.Const("start", Val), "Position")))])))
+        argsc = [envc, Ref(exc.new_cell(stc2, Opq(z3.Const("it", Val), "LexIterator")))] + [Ref(exc.new_cell(stc2, Opq(z3.Const(f"lex{i}", Val), "Lex"))) for i in range(len(clo[0].args) - 2)]
+        for p in e2.run_kernel(run, exc, clo[0], argsc, stc2):
+            if result_kind(p) != "Ok":
+                continue
+            evs = [e_ for e_ in p.events if e_["name"].startswith("LexIterator::")]
+            ok = len(evs) == 2 and evs[0]["name"] == "LexIterator::parse" and evs[1]["name"] == "LexIterator::eat_while"
+            if ok:
+                a1 = evs[1]["args"][1]
+                a1 = exc.read_ref(p.state, a1) if isinstance(a1, Ref) else a1
+                ok = isinstance(a1, Agg) and a1.variant == "NL"
+            clc.append(z3.Implies(conj(p.cond), z3.BoolVal(bool(ok))))
+        e2.prove_each(run, ob, exc, [], clc, {}, blank_replay("condition-newlines", ("conditions",)))
+        if ob.status == "discharged":
+            rep_ = blank_replay("condition-newlines", ("conditions",))({})
+            run.validated += 1
+            if rep_.get("reproduced"):
+                ob.status = "pending"
+                ob.inconclusive("placements of blank / comment lines still change the verdict although the kernel is as specified: " + str(rep_.get("failing"))[:300])
     except Unsupported as e:
         ob.inconclusive(str(e))
 
